@@ -4,3 +4,4 @@ pub mod evidence;
 pub mod props;
 pub mod sel;
 pub mod util;
+pub mod world;
